@@ -8,6 +8,8 @@ Definition nested_list_type (k : nat) : list N :=       (* x: [[..[int...]..]] =
   [120; 58; 32] ++ repeat 91 k ++ [105; 110; 116; 46; 46; 46] ++ repeat 93 k ++ [32; 61; 32; 49; 10].
 Definition unclosed_list (k : nat) : list N :=          (* x = [[[[.. *)
   [120; 32; 61; 32] ++ repeat 91 k.
+Definition nested_callbacks (k : nat) : list N :=      (* r(fn(){r(fn(){ .. print 1 + .. })}) : an operand is missing in the innermost callback *)
+  concat (repeat [114; 40; 102; 110; 40; 41; 123] k) ++ [112; 114; 105; 110; 116; 32; 49; 32; 43] ++ concat (repeat [125; 41] k).
 Definition steps (input : list N) : N :=
   match steps_of (parse_rule Grammar.g 4000 r_file input) with Some n => n | None => 0 end.
 Definition ks : list nat := seq 1 12.
@@ -27,4 +29,12 @@ Proof. vm_compute. reflexivity. Qed.
 
 Example C16_unclosed_list_steps_double_refuted :
   doubling 1 (map (fun k => steps (unclosed_list k)) ks) = true.
+Proof. vm_compute. reflexivity. Qed.
+
+(* the same for a syntax error inside k nested callbacks `r(fn(){ .. })` (no list is involved: the argument of the call is
+   parsed once as a call argument and, when that fails, again as a parenthesised expression statement); k = 1 .. 10.
+   With the parse budget of compiler/src/parser.rs (fix "parse-budget") the real parser gives up after a number of rule
+   invocations that is linear in the input; the grammar itself keeps this growth. *)
+Example C16_nested_callbacks_steps_double_refuted :
+  doubling 1 (map (fun k => steps (nested_callbacks k)) (seq 1 10)) = true.
 Proof. vm_compute. reflexivity. Qed.
